@@ -30,6 +30,27 @@ var sessCorpus = []struct {
 	{"i:0,m:0", "c0,o0,c1,o1,s0,s1,pi0r,pm0e,g"},        // two requests with one id: the later registration owns the slot
 	{"i:0,i:0", "c0,o0,s0,c1,o1,s1,x1,pi0r"},            // same id twice: the second call's return removes the slot
 	{"m:3", "c0,o0,s0,pm3e,g,x0,h,k0"},
+	// a response whose content cannot be read to its end: the caller reads into the error (the
+	// response closes itself) and then closes it, as UnmarshalIQ does — one close of the hand-off
+	// channel, no panic; the serve loop cannot read the rest either and Serve returns that error
+	{"i:0:e:r", "c0,o0,s0,pi0rX,g,h,d0,k0"},
+	{"i:0:e:r", "c0,o0,s0,pi0eX,g,d0,k0"},
+	{"m:0:c:e", "c0,o0,s0,pm0eX,g,h,k0"},
+	{"i:0:e:r", "c0,o0,s0,pi0rT,g,h,d0,k0"}, // the input ends in the middle of the response
+	{"i:0:c:e", "c0,o0,s0,pi0eT,g,k0"},
+	{"i:0:e:r", "c0,o0,s0,pm9nT"},
+	{"i:0:e:r,i:1:e:r", "c0,o0,c1,o1,s0,s1,pi1r,g,h,d1,k1,pi0rX,g,h,d0,k0,x1"},
+	// after a transmission that failed inside its element the output is broken for good: other
+	// waiters still get their replies or their context errors, new calls fail at once, stanzas
+	// that need no write still reach the handler, and Serve returns at its first own write
+	{"i:0:e:r,i:1:e:r", "c0,o0,s0,c1,f1,pi0r,g,h,k0,pm9n,pi9r"},
+	{"i:0:e:r,i:1:e:r", "c0,o0,s0,c1,f1,x0,pm9n,pi9g"},
+	{"i:0:e:r,i:1:e:r,m:2:c:e", "c0,f0,c1,c2,pm9n,pi1r,pi9g"},
+	{"i:0:e:r", "c0,pi0r,f0,g,pm9e,pi9t"},
+	// a transmission that fails WITHOUT touching the wire (output stream already closed): the
+	// serve loop goes on with everything that needs no write
+	{"i:0:e:r,m:1:e:e", "c0,o0,s0,C,c1,pi0r,g,h,k0,pm1e,pm9n,pp9n"},
+	{"i:0:e:r", "C,c0,pi0r,pm9e,pi9g"},
 	// requests that spell out the stream's namespace: a response of another kind with the same id
 	// must go to the handler, the real one to the caller (every kind, both APIs)
 	{"i:0:c:r", "c0,o0,s0,pm0e,pp0e,pi0e,g,h,k0"},
@@ -110,7 +131,13 @@ func randSched(rnd *common.Rand, n int, length int) []string {
 		case 12:
 			out = append(out, "h")
 		case 13:
-			out = append(out, "k"+i)
+			if rnd.Chance(1, 6) {
+				out = append(out, "C")
+			} else if rnd.Chance(1, 3) {
+				out = append(out, "d"+i, "k"+i)
+			} else {
+				out = append(out, "k"+i)
+			}
 		}
 	}
 	return out
